@@ -86,18 +86,156 @@ def _ancestors(fm, n):
     return list(tbf.ancestors(n))
 
 
+class _Return(Exception):
+    def __init__(self, v):
+        self.v = v
+
+
+def fold_call(facts, cls, fname, args, members, depth=0):
+    """constant folding of a pure integer function of the class for concrete arguments (no loops, no state: if-chains, local constants,
+    arithmetic, shifts, calls to other such functions of the class); returns an int or a tuple (pair / array arguments)"""
+    if depth > 6:
+        raise AnalysisBroken("%s::%s: folding recursion too deep" % (cls, fname))
+    ms = [m for m in facts.methods_of(cls) if m["name"] == fname and tbf.body(m) is not None and not m.get("inst")]
+    if len(ms) != 1:
+        raise AnalysisBroken("%s::%s: %d definitions, cannot fold" % (cls, fname, len(ms)))
+    fn = ms[0]
+    if len(fn["params"]) != len(args):
+        raise AnalysisBroken("%s::%s: folded with %d arguments" % (cls, fname, len(args)))
+    env = {p_["did"]: a for p_, a in zip(fn["params"], args)}
+
+    def ev(n):
+        n = strip(n)
+        k = n.get("k")
+        if k == "IntegerLiteral":
+            return int(n["val"])
+        if k == "CXXBoolLiteralExpr":
+            return bool(n.get("val"))
+        if k == "UnaryOperator" and n.get("op") in ("-", "+", "!"):
+            v = ev(kids(n)[0])
+            return {"-": lambda: -v, "+": lambda: v, "!": lambda: (not v)}[n["op"]]()
+        if k == "ConditionalOperator":
+            c_, a_, b_ = kids(n)
+            return ev(a_) if ev(c_) else ev(b_)
+        if k == "BinaryOperator":
+            op = n.get("op")
+            if op == "&&":
+                return bool(ev(kids(n)[0])) and bool(ev(kids(n)[1]))
+            if op == "||":
+                return bool(ev(kids(n)[0])) or bool(ev(kids(n)[1]))
+            a, b = ev(kids(n)[0]), ev(kids(n)[1])
+            if op == "/":
+                if b == 0:
+                    raise AnalysisBroken("%s: folding divides by zero" % facts.loc(n))
+                q = abs(a) // abs(b)
+                return q if (a >= 0) == (b >= 0) else -q
+            if op == "%":
+                if b == 0:
+                    raise AnalysisBroken("%s: folding divides by zero" % facts.loc(n))
+                return a - b * (abs(a) // abs(b) if (a >= 0) == (b >= 0) else -(abs(a) // abs(b)))
+            if op in ("<<", ">>") and not (0 <= b < 63):
+                raise AnalysisBroken("%s: shift by %s while folding" % (facts.loc(n), b))
+            f = {"+": lambda: a + b, "-": lambda: a - b, "*": lambda: a * b, "<<": lambda: a << b, ">>": lambda: a >> b,
+                 "==": lambda: a == b, "!=": lambda: a != b, "<": lambda: a < b, "<=": lambda: a <= b, ">": lambda: a > b, ">=": lambda: a >= b}.get(op)
+            if f is None:
+                raise AnalysisBroken("%s: operator %s not folded" % (facts.loc(n), op))
+            return f()
+        if k == "DeclRefExpr" and n.get("did") in env:
+            return env[n["did"]]
+        if k == "MemberExpr" and n.get("name") in members:
+            return members[n["name"]]
+        if k in ("CallExpr", "CXXMemberCallExpr"):
+            nm = tbf.callee_name(n)
+            a = tbf.call_args(n)
+            if nm == "make_array" and len(a) == 1:
+                return ev(a[0])
+            if nm in ("make_pair",) and len(a) == 2:
+                return (ev(a[0]), ev(a[1]))
+            if nm in ("max", "min") and len(a) == 2:
+                return (max if nm == "max" else min)(ev(a[0]), ev(a[1]))
+            if nm == "lipow" and len(a) == 2:
+                return ev(a[0]) ** ev(a[1])
+            if any(m["name"] == nm for m in facts.methods_of(cls)):
+                return fold_call(facts, cls, nm, [ev(x) for x in a], members, depth + 1)
+        if k in ("CXXConstructExpr", "CXXTemporaryObjectExpr", "CXXUnresolvedConstructExpr", "InitListExpr", "CXXFunctionalCastExpr", "ParenListExpr"):
+            kk = kids(n)
+            if len(kk) == 1:
+                return ev(kk[0])
+            if len(kk) == 2:
+                return (ev(kk[0]), ev(kk[1]))
+        if (k.endswith("CastExpr") or k in ("ParenExpr", "ExprWithCleanups", "MaterializeTemporaryExpr", "CXXBindTemporaryExpr")) and len(kids(n)) == 1:
+            return ev(kids(n)[0])
+        raise AnalysisBroken("%s: cannot fold '%s' (%s)" % (facts.loc(n), facts.ntext(n)[:60], k))
+
+    def ex(st):
+        k = st.get("k")
+        if k == "CompoundStmt":
+            for c_ in kids(st):
+                ex(c_)
+        elif k == "IfStmt":
+            cc = [y for y in kids(st) if y.get("k") != "DeclStmt"]
+            if ev(cc[0]):
+                ex(cc[1])
+            elif len(cc) > 2:
+                ex(cc[2])
+        elif k == "DeclStmt":
+            for v in kids(st):
+                if v.get("k") == "VarDecl":
+                    if not kids(v):
+                        raise AnalysisBroken("%s: local without initialiser while folding" % facts.loc(v))
+                    env[v["did"]] = ev(kids(v)[0])
+        elif k == "ReturnStmt":
+            raise _Return(ev(kids(st)[0]))
+        elif k in ("NullStmt",):
+            pass
+        elif k in ("ForStmt", "WhileStmt", "DoStmt", "CXXForRangeStmt", "SwitchStmt") or (k in ("BinaryOperator", "CompoundAssignOperator", "CXXOperatorCallExpr") and st.get("op", "").endswith("=") and st.get("op") not in ("==", "<=", ">=", "!=")):
+            raise AnalysisBroken("%s: %s is not a loop-free constant function (%s)" % (facts.loc(st), fname, k))
+        # anything else (assert expansions, static_assert, using) has no effect on the value
+    try:
+        ex(tbf.body(fn))
+    except _Return as r:
+        return r.v
+    raise AnalysisBroken("%s::%s: folding reached the end without a return" % (cls, fname))
+
+
+def repetition_fold(facts, cls, res, cnt, itv, nmax=12):
+    """the repetition functions are not the three-branch chain on the number of extra levels: fold both for n = -1 .. nmax"""
+    R = "C10.1.interval-count"
+    byn = {}
+    for n in range(-1, nmax + 1):
+        count = fold_call(facts, cls, cnt["name"], [n], {})
+        iv = fold_call(facts, cls, itv["name"], [], {"nbLevelsAbove0": n})
+        if not (isinstance(count, int) and isinstance(iv, tuple) and len(iv) == 2 and all(isinstance(x, int) for x in iv)):
+            raise AnalysisBroken("%s: folded repetition functions give %r / %r" % (cls, count, iv))
+        lo, hi = iv
+        byn[n] = (count, lo, hi)
+        res.instance(R, "%s n=%d" % (cls, n), facts.loc(itv), "count %d interval [%d, %d] (constant folding of %s / %s)" % (count, lo, hi, cnt["name"], itv["name"]))
+        if hi - lo + 1 != count:
+            res.violation(R, tbf.rel(facts.path_of(itv)), itv["qname"], "n:%d" % n, itv["l"][1],
+                          "for %d extra levels the library reports %d repetitions per dimension but the interval [%d, %d] holds %d boxes" % (n, count, lo, hi, hi - lo + 1))
+        if lo > 0 or hi < 0:
+            res.violation(R, tbf.rel(facts.path_of(itv)), itv["qname"], "n:%d:origin" % n, itv["l"][1], "the repetition interval [%d, %d] does not contain the central box" % (lo, hi))
+    summary = {"byn": byn, -1: tuple(str(x) for x in byn[-1]), 0: tuple(str(x) for x in byn[0])}
+    return summary
+
+
 def repetition_formulas(facts, cls, res):
     R = "C10.1.interval-count"
     cnt = [m for m in facts.methods_of(cls) if m["name"] == "GetNbRepetitionsPerDim"]
     itv = [m for m in facts.methods_of(cls) if m["name"] == "getRepetitionsIntervals"]
     if len(cnt) != 1 or len(itv) != 1:
         raise AnalysisBroken("%s: repetition functions not found" % cls)
-    cb = branches(facts, cnt[0], cnt[0]["params"][0]["name"])
-    ib = branches(facts, itv[0], "nbLevelsAbove0")
-    if set(cb) != set(ib) or set(cb) != {-1, 0, "else"}:
-        raise AnalysisBroken("%s: branches of the repetition functions are %s / %s (expected -1, 0, else)" % (cls, sorted(map(str, cb)), sorted(map(str, ib))))
+    try:
+        cb = branches(facts, cnt[0], cnt[0]["params"][0]["name"])
+        ib = branches(facts, itv[0], "nbLevelsAbove0")
+        classic = set(cb) == set(ib) and set(cb) == {-1, 0, "else"}
+    except AnalysisBroken:
+        classic = False
     summary = {}
-    for key in (-1, 0, "else"):
+    if not classic:
+        summary = repetition_fold(facts, cls, res, cnt[0], itv[0])
+        cb = ib = {}
+    for key in ((-1, 0, "else") if classic else ()):
         count = sympy.simplify(val(facts, ret_expr(cb[key]) if cb[key].get("k") != "ReturnStmt" else kids(cb[key])[0], {}))
         blk = ib[key]
         env = {"getNbRepetitionsPerDim": count, "GetNbRepetitionsPerDim": count}
@@ -732,8 +870,13 @@ def tiling(facts, cls, res, formulas, nmax=10):
     checked = 0
     for n in range(0, nmax + 1):
         H = int(Hn.subs(N, n))
-        fl = formulas[0] if n == 0 else formulas["else"]
-        want = (int(SY(fl[1]).subs(P, 2 ** n)), int(SY(fl[2]).subs(P, 2 ** n)) + 1)
+        if "byn" in formulas:
+            if n not in formulas["byn"]:
+                break
+            want = (formulas["byn"][n][1], formulas["byn"][n][2] + 1)
+        else:
+            fl = formulas[0] if n == 0 else formulas["else"]
+            want = (int(SY(fl[1]).subs(P, 2 ** n)), int(SY(fl[2]).subs(P, 2 ** n)) + 1)
         # levels at which a transfer happens, finest first
         if n == 0:
             levels = [(int(lvl0.subs(Hs, H)), w0, core0)]
